@@ -139,3 +139,22 @@ void h_ec_rs(void)
 	__CPROVER_assert(0, "canary");
 #endif
 }
+
+
+/* ================================================================== ec_undo / ec_redo (C04: ":u" and ":redo" are exactly one history step) */
+struct ghost_ur { int undo_calls, redo_calls, ret; } UR;
+int lbuf_undo(struct lbuf *lb) { UR.undo_calls++; return UR.ret; }
+int lbuf_redo(struct lbuf *lb) { UR.redo_calls++; return UR.ret; }
+void h_ec_undo_redo(void)
+{
+	char loc[2], cmd[2], arg[2];
+	int which = nondet_bool();
+	MK_INIT();
+	loc[0] = 0; cmd[0] = 'u'; cmd[1] = 0; arg[0] = 0;
+	UR.undo_calls = UR.redo_calls = 0; UR.ret = nondet_int();
+	int r = which ? ec_undo(loc, cmd, arg, 0) : ec_redo(loc, cmd, arg, 0);
+	H_ASSERT(r == UR.ret && UR.undo_calls == (which ? 1 : 0) && UR.redo_calls == (which ? 0 : 1) && MK.edit_calls == 0, "ec_undo / ec_redo: exactly one undo / redo step of the current buffer, its failure reported; nothing else is touched");
+#ifdef CANARY
+	__CPROVER_assert(0, "canary");
+#endif
+}
